@@ -11,7 +11,7 @@ LayoutPair.lean).  Model: Model/Layout.lean ⇄
     split_off_ppf1).
 Glyph ids are `Nat`s; every theorem about real tables assumes them `< 65536` (they are `u16`).
 -/
-import FontVerif.Lemmas.LayoutSplit2
+import FontVerif.Lemmas.LayoutDev
 set_option linter.unusedVariables false
 namespace FontVerif.C16
 open FontVerif FontVerif.Layout
@@ -346,6 +346,41 @@ theorem ppf2_split_heuristic_preserves {V : Type} (t : PairPos2 V) (hwf : t.cov.
   obtain ⟨ts, a, _, c⟩ := ppf2_split_preserves t hwf pts (pw.imp (fun h => Nat.le_of_lt h)) hl
   exact ⟨ts, a, c⟩
 
+/-- **ppf2_split_preserves_devices.**  The same at the level of the packing graph, where a value
+record is its scalar fields plus four device / variation-index offset slots and the subtable's
+`offsets` list names the linked objects in writing order (coverage, class definition 1, class
+definition 2, then every NON-NULL device offset, row-major, value record 1 before value record 2).
+Take ANY such subtable (any per-record pattern of null / non-null device offsets, any object ids —
+also repeated ones, i.e. shared device tables) whose offset list has an entry for every non-null
+device offset, and ANY non-decreasing split points ending with the class-1 count.  The record loop of
+`split_off_ppf2` (`first_device_idx + seen_offsets`, re-slicing the offset list before each of the
+two value records, `copy_value_rec` indexing the slice by its own running count, `next_device_offset
++= offsets_used` between subtables) never indexes out of bounds, and for EVERY glyph pair the
+first-match lookup over the new subtables yields the SAME two value records as the unsplit subtable:
+the same scalar fields and, in each of the eight device slots, a link to the same object (or null). -/
+theorem ppf2_split_preserves_devices {S : Type} (t : PairPos2G S) (hcov : t.tbl.cov.WF) (hwf : t.WF)
+    (pts : List Nat) (hinc : pts.Pairwise (· ≤ ·)) (hlast : pts.getLast? = some t.tbl.rows.length) :
+    ∃ ts, splitPpf2GGo t 0 3 pts = some ts ∧ ts.length = pts.length ∧
+      ∀ g1 g2, firstMatch2 ts g1 g2 = t.resolved.lookup g1 g2 := by
+  have hpw : (0 :: pts).Pairwise (· ≤ ·) := List.pairwise_cons.mpr ⟨fun _ _ => Nat.zero_le _, hinc⟩
+  have hlen : t.resolved.rows.length = t.tbl.rows.length := resolveRows_length _ _ _
+  have h := ppf2_split_preserves t.resolved hcov pts hinc (by rw [hlen]; exact hlast)
+  have e := splitPpf2GGo_eq t hwf pts 0 hpw
+  simp only [List.take_zero, rowsDevs, List.map_nil, List.sum_nil, Nat.add_zero] at e
+  rw [e]
+  exact h
+
+/-- **ppf1_split_preserves_devices.**  PairPos format 1: the split re-links whole pair-set objects
+(`split_off_ppf1` copies `data.offsets[1 + start..]`), value records and their device tables are
+never rewritten; so with value records that carry device links (`DevVR × DevVR`) every pair keeps
+both records including all eight device slots.  (Instance of `ppf1_split_preserves`.) -/
+theorem ppf1_split_preserves_devices {S : Type} (t : PairPos1 (DevVR S × DevVR S)) (hwf : t.cov.WF)
+    (hlen : t.pairSets.length = t.cov.glyphs.length) (pts : List Nat)
+    (hinc : pts.Pairwise (· ≤ ·)) (hlast : pts.getLast? = some t.pairSets.length) :
+    ∃ ts, splitPpf1Go t 0 pts = some ts ∧ ts.length = pts.length ∧
+      ∀ g1 g2, firstMatch ts g1 g2 = t.lookup g1 g2 :=
+  ppf1_split_preserves t hwf hlen pts hinc hlast
+
 /-! ## MarkBasePos splitting -/
 
 /-- **markbase_split_preserves.**  Take ANY MarkBasePos subtable with a well-formed mark coverage
@@ -431,6 +466,31 @@ example :
     (splitPpf2Go t 0 [1, 3]).map (·.map (fun s => (s.cov, s.classDef1, s.rows))) =
       some [(.fmt1 [1], .fmt2 [], [[0, 10]]),
             (.fmt1 [2, 3, 4], .fmt1 4 [1], [[0, 11], [0, 12]])] := by
+  decide +kernel
+/-- a graph-level PairPos format 2 split with device offsets: 3 class-1 records × 2 class-2 records;
+record 1 / record 2 device patterns differ per cell, object ids 101.. in writing order, one object
+(104) shared.  All hypotheses of `ppf2_split_preserves_devices` hold, and e.g. the cell (class 1,
+class 1) keeps x_placement_device → 104 in record 1 and y_advance_device → 105 in record 2. -/
+def exPpf2G : PairPos2G Nat :=
+  ⟨⟨.fmt1 [1, 2, 3, 4], .fmt2 [⟨2, 3, 1⟩, ⟨4, 4, 2⟩], .fmt2 [⟨7, 7, 1⟩],
+    [[(⟨10, [true, false, true, false]⟩, ⟨11, [false, true, false, false]⟩),
+      (⟨12, [false, false, false, false]⟩, ⟨13, [false, false, false, false]⟩)],
+     [(⟨20, [false, false, false, false]⟩, ⟨21, [true, false, false, false]⟩),
+      (⟨22, [true, false, false, false]⟩, ⟨23, [false, false, false, true]⟩)],
+     [(⟨30, [true, true, true, true]⟩, ⟨31, [true, true, true, true]⟩),
+      (⟨32, [false, false, false, false]⟩, ⟨33, [false, false, true, false]⟩)]]⟩,
+   [1, 2, 3, 101, 102, 103, 104, 104, 105, 106, 107, 108, 109, 110, 111, 112, 113, 114]⟩
+example : exPpf2G.WF ∧ [1, 3].Pairwise (· ≤ ·) ∧ [1, 3].getLast? = some exPpf2G.tbl.rows.length :=
+  ⟨by unfold PairPos2G.WF; decide, by decide, by decide⟩
+example : (splitPpf2GGo exPpf2G 0 3 [1, 3]).map (fun ts => firstMatch2 ts 3 7) =
+    some (some (⟨22, [some 104, none, none, none]⟩, ⟨23, [none, none, none, some 105]⟩)) := by
+  decide +kernel
+example : (splitPpf2GGo exPpf2G 0 3 [1, 3]).map (fun ts => firstMatch2 ts 4 9) =
+    some (some (⟨30, [some 106, some 107, some 108, some 109]⟩,
+                ⟨31, [some 110, some 111, some 112, some 113]⟩)) := by
+  decide +kernel
+/-- an offset list that is too short is an index panic in `copy_value_rec`, not a wrong link -/
+example : splitPpf2GGo (⟨exPpf2G.tbl, [1, 2, 3, 101]⟩ : PairPos2G Nat) 0 3 [1, 3] = none := by
   decide +kernel
 /-- a first pair set above 64 KiB makes the heuristic emit the split point 0 … -/
 example : ppf1SplitPoints 10 [(1, 65602), (2, 65602), (3, 22)] = some [0, 1, 2, 3] := by decide
